@@ -65,7 +65,7 @@ def _is_sampleset_v2(obj):
 
 def _is_bqm(obj):
     # we could do more checking but probably this is sufficient
-    return obj.get("type", "") == "BinaryQuadraticModel"
+    return obj.get("type", "") in ("BinaryQuadraticModel", "DictBQM", "Float32BQM")
 
 
 def dimod_object_hook(obj):
